@@ -71,6 +71,9 @@ Proof. exact py_intersect_spec. Qed.
 Theorem C06_control_after_any_plain_history : forall (fuel : nat) (N : net) (cfg : config) (target : list (option bool)) (d d' : sd) (all_strategy : bool) (maxd : option nat) (forbidden : list nat) (b : bool) (succ : list space) (ctl : list (list space)), 1 <= max_motifs cfg -> length target = nvars N -> PlainInv N d -> expand_to_target fuel N cfg d target None = (d', RBool true) -> In (succ, ctl, true) (succession_control_ff N d' target all_strategy maxd forbidden b) -> let spaces := chain N succ (top_space (nvars N)) in length ctl = length succ /\ (forall i : nat, i < length succ -> trap_space N (nth i spaces []) /\ trap_space N (nth (S i) spaces []) /\ subspace (nth (S i) spaces []) (nth i spaces []) = true /\ nth i ctl [] <> [] /\ (forall drv : space, In drv (nth i ctl []) -> subspace (percolate_b N (merge drv (nth i spaces []))) (nth i succ []) = true /\ forced (override N drv) (nth i spaces []) (nth i succ []))) /\ intersect (last spaces []) target <> None /\ (forall M : space, min_trap N M -> subspace M (last spaces []) = true -> subspace M target = true).
 Proof. exact control_after_plain_history_sound. Qed.
 
+Theorem C06_source_public_expand_to_target : forall (fuel : nat) (N : net) (cfg : config) (d : sd) (target : space) (size_limit : option nat), py_api_expand_to_target fuel N cfg d target size_limit = expand_to_target fuel N cfg d target size_limit.
+Proof. exact py_api_expand_to_target_spec. Qed.
+
 (* translator tie: the function GENERATED from the current text of biobalm/_sd_algorithms/expand_to_target.py (PySrcSdTarget.v) equals the model's expand_to_target *)
 Theorem C06_source_expand_to_target : forall (fuel : nat) (N : net) (cfg : config) (d : sd) (target : space) (size_limit : option nat), py_expand_to_target fuel N cfg d target size_limit = expand_to_target fuel N cfg d target size_limit.
 Proof. exact py_expand_to_target_spec_all. Qed.
@@ -106,6 +109,7 @@ Print Assumptions C06_skip_feedforward_subset.
 Print Assumptions C06_source_is_subspace.
 Print Assumptions C06_source_intersect.
 Print Assumptions C06_control_after_any_plain_history.
+Print Assumptions C06_source_public_expand_to_target.
 Print Assumptions C06_source_expand_to_target.
 Print Assumptions C06_control_after_ANY_history.
 Print Assumptions C06_control_sound_on_skipped_diagrams.
